@@ -64,6 +64,11 @@ func oracleInstants(c *Case) CaseResult {
 	st.ClipToHints = c.ID%2 == 1 // a storage that trims to the selected range, every other case
 	cfg := c.Cfg()
 	eng := newImpl(cfg)
+	if c.ID%5 == 4 {
+		// a distributed engine over two partitions whose remote engines are configured with another
+		// lookback than the query's: pushed-down parts must run with the query's in both kinds of query
+		eng = newDistImpl(cfg, c.Data, otherLookback(c))
+	}
 	res := CaseResult{}
 	if c.Window.Instant() {
 		res.Skipped = "instant window"
@@ -249,6 +254,14 @@ func oracleOpt(c *Case) CaseResult {
 			res.Fail = "optimizers [" + n + "] vs none: " + d
 			res.Impl, res.Ref = trunc(got.String(), 500), trunc(base.String(), 500)
 			res.Tags = selfTags(c, got, base)
+			if (got.Kind == "error") != (base.Kind == "error") && (errGroup(got.Err) == "matching" || errGroup(base.Err) == "matching") {
+				// the rewrites only drop series that no series of the other side can match and select the
+				// same series otherwise: the samples that meet at a step, which decide whether the step is
+				// ambiguous, are the same (F20 is about what a colliding join returns, not about a plan
+				// in which the query fails and one in which it does not)
+				res.Fail = "optimizers [" + n + "] vs none: the query fails with a many-to-many error in one plan and succeeds in the other"
+				res.Tags = []string{"error-depends-on-optimizers"}
+			}
 			return res
 		}
 	}
@@ -390,6 +403,25 @@ func validateResult(c Canon, w Window, typ string) string {
 		}
 	}
 	return ""
+}
+
+// otherLookback: a lookback that differs from the one the case's queries are evaluated with
+func otherLookback(c *Case) time.Duration {
+	if c.EffLookback() == 300_000 {
+		return 45 * time.Second
+	}
+	return 5 * time.Minute
+}
+
+// newDistImpl: a distributed engine with the case's configuration over two halves of the data,
+// its remote engines configured with the lookback remoteLookback
+func newDistImpl(cfg EngineCfg, data []SeriesData, remoteLookback time.Duration) queryMaker {
+	half := len(data) / 2
+	rcfg := cfg
+	rcfg.Lookback = remoteLookback
+	ropts := engine.Opts{EngineOpts: promOpts(rcfg)}
+	remotes := []api.RemoteEngine{engine.NewLocalEngine(ropts, NewStore(data[:half])), engine.NewLocalEngine(ropts, NewStore(data[half:]))}
+	return engine.NewDistributedEngine(engine.Opts{EngineOpts: promOpts(cfg)}, api.NewStaticEndpoints(remotes))
 }
 
 func oracleWF(c *Case) CaseResult {
